@@ -123,10 +123,59 @@ package data
 //@ func init()
 //@   assigns EmptyIntSet, EmptyIntMap
 
-//@ -- Filter: keeps exactly the keys of m that are in the set. TRUSTED for now (higher-order iteration through IntSet.Each).
+//@ -- ---------------------------------------------------------------- iteration with a callback
+//@ -- GhostEachData/GhostEachN: the slice an Each is iterating and the number of elements already handed to the
+//@ -- callback. A callback consumes the next element (its contract performs the ghost step) and keeps its own
+//@ -- invariant on its captured variables, which may speak about how far the iteration has got.
+//@ ghost GhostEachData []int
+//@ ghost GhostEachN int
+//@ functype data.eachcb(self func(int), v int)
+//@   requires cloinv(self) && 0 <= GhostEachN && GhostEachN < len(GhostEachData) && v == GhostEachData[GhostEachN]
+//@   ensures  [ghost-step] GhostEachN == old(GhostEachN) + 1 && same(GhostEachData, old(GhostEachData))
+//@   ensures  [keeps] cloinv(self)
+//@   assigns  captures(self), GhostEachN
+
+//@ -- Each hands the elements to the callback in ascending (slice) order, each exactly once
+//@ func (i IntSet) Each(f func(val int))
+//@   requires f != nil && cloinv(f) && GhostEachN == 0 && same(GhostEachData, i.data)
+//@   ensures  [all;C15] GhostEachN == len(i.data) && cloinv(f) && same(GhostEachData, old(GhostEachData))
+//@   assigns  captures(f), GhostEachN
+//@ loop 1 (k rangeindex)
+//@   invariant 0 <= k && k <= len(i.data) && GhostEachN == k && cloinv(f) && same(GhostEachData, i.data)
+//@ callee f(v int)
+//@   include data.eachcb
+
+//@ -- IntMap.Each hands every entry to the callback exactly once (in no particular order): GhostSeen marks the keys
+//@ -- already handed over, GhostEachMap is the map being iterated
+//@ ghost GhostEachMap map[int]int
+//@ ghostfun GhostSeen(k int) bool
+//@ functype data.eachkv(self func(int, int), k int, v int)
+//@   requires cloinv(self) && dom(GhostEachMap, k) && GhostEachMap[k] == v && !GhostSeen(k)
+//@   ensures  [ghost-step] GhostSeen(k) && (forall j int :: j != k ==> GhostSeen(j) == old(GhostSeen(j))) && same(GhostEachMap, old(GhostEachMap))
+//@   ensures  [keeps] cloinv(self)
+//@   assigns  captures(self), GhostSeen
+//@ func (m IntMap) Each(f func(key int, val int))
+//@   requires f != nil && cloinv(f) && same(GhostEachMap, m.data) && forall k int :: !GhostSeen(k)
+//@   ensures  [all;C15] (forall k int :: GhostSeen(k) == dom(m.data, k)) && cloinv(f)
+//@   assigns  captures(f), GhostSeen
+//@ loop 1 ()
+//@   invariant (forall k int :: GhostSeen(k) == visited(k)) && cloinv(f) && same(GhostEachMap, m.data)
+//@ callee f(k int, v int)
+//@   include data.eachkv
+
+//@ -- the callback of Filter: copies the entry of the next key if the map has one
+//@ closure (IntMap).Filter$1(key int)
+//@   captures (i IntMap, i2 IntMap)
+//@   requires 0 <= GhostEachN && GhostEachN < len(GhostEachData) && key == GhostEachData[GhostEachN]
+//@   ensures  [inv] i2.data != nil && (forall k int :: dom(i2.data, k) == (dom(i.data, k) && MemberN(GhostEachData, GhostEachN, k))) && (forall k int :: dom(i2.data, k) ==> i2.data[k] == i.data[k])
+//@   ghost_return GhostEachN = GhostEachN + 1
+//@   assigns  mapcells(i2.data), GhostEachN
+
+//@ -- Filter: keeps exactly the entries of m whose key is in the set; the result is a new map
 //@ func (m IntMap) Filter(keys IntSet) (r IntMap)
 //@   ensures  r.data != nil && fresh(r.data)
 //@   ensures  [dom] forall k int :: dom(r.data, k) == (dom(m.data, k) && Member(keys.data, k))
 //@   ensures  [val] forall k int :: dom(r.data, k) ==> r.data[k] == m.data[k]
-//@   assigns  nothing
-//@   flag trusted
+//@   ghost_at call#1 GhostEachN = 0
+//@   ghost_at call#1 GhostEachData = keys.data
+//@   assigns  GhostEachN, GhostEachData
